@@ -144,7 +144,7 @@ func init() {
 		ms := int64(time.Millisecond)
 		clocks := []int64{0, 1, 2, 3, 79, 80, 81, ms, 7 * ms, 999 * ms, 1000 * ms, 60000 * ms, 3600000 * ms, 1 << 40, 1 << 50, 1<<62 - 1}
 		for _, w := range clocks {
-			for _, m := range []int64{0, 1, 2, 3, 10, 39, 40, 41, 100, 1 << 20, 1<<31 - 1} {
+			for _, m := range []int64{0, 1, 2, 3, 10, 39, 40, 41, 100, 1 << 20, 1<<31 - 1, 1 << 31, 1<<62 - 1, 1 << 62, 1<<63 - 2, 1<<63 - 1, -1, -(1 << 62), -(1 << 63)} {
 				for _, c := range []string{"w", "b"} {
 					o.do(fmt.Sprintf("limits %d %d %d %s", w, clocks[r.Intn(len(clocks))], m, c))
 					o.do(fmt.Sprintf("limits %d %d %d %s", clocks[r.Intn(len(clocks))], w, m, c))
@@ -157,7 +157,10 @@ func init() {
 			n = 200000
 		}
 		for i := 0; i < n; i++ {
-			w, b, m := r.Int63n(1<<uint(1+r.Intn(62))), r.Int63n(1<<uint(1+r.Intn(62))), r.Int63n(1<<uint(1+r.Intn(31)))
+			w, b, m := r.Int63n(1<<uint(1+r.Intn(62))), r.Int63n(1<<uint(1+r.Intn(62))), r.Int63n(1<<uint(1+r.Intn(62)))
+			if r.Intn(6) == 0 { // close to the top of the range: Moves+1 and 2*(Moves+1) wrap there
+				m = 1<<63 - 1 - r.Int63n(1<<uint(1+r.Intn(20)))
+			}
 			if r.Intn(10) == 0 {
 				w, m = -w, -m // outside the property: model must still agree
 			}
